@@ -59,4 +59,9 @@ def obligations(tier, ctx):
         params = [("method", "str"), ("psel", "int")] + ([("rid", "int")] if idk == "int" else [])
         call = "H.dispatch(method, %s, %s, psel, 'x', 0)" % ("True" if idk == "int" else "False", "rid" if idk == "int" else "None")
         obs.append(Ob(name=f"anymethod_id{idk}", params=params, pre=["1 <= len(method) <= 3", "0 <= psel <= 2"], call=call, backend="F", timeout=300, family="arbitrary method strings"))
+    # failing handlers: exception text from a corpus (empty, multi-line, control characters, long) by symbolic index
+    for meth, psel in (("custom/raise", 0), ("notifications/custom_fail", 0), ("tools/call", 8), ("resources/read", 7)):
+        for has in (True, False):
+            obs.append(Ob(name=f"exc_{meth.replace('/', '_')}_{'id' if has else 'noid'}", params=[("rid", "int"), ("tsel", "int")], pre=["0 <= tsel <= 5"],
+                          call=f"H.dispatch_exc({meth!r}, {has}, rid if {has} else None, {psel}, 6, tsel)", backend="F", timeout=200, family="handler raises (exception text corpus)"))
     return obs
